@@ -1,9 +1,10 @@
-"""Child of core.optimised_recheck: runs under `python -O` (asserts stripped, __debug__ False), repeats the pickled calls on the
+"""Child of core.optimised_recheck: runs in another interpreter mode (see core.CHILD_CONFIGS), repeats the pickled calls on the
 implementation - randomised ones under the recorded entropy - and writes their canonical outcomes back."""
+import os
 import pickle
 import sys
 
-import core  # noqa: F401  (sets up the repository path, the entropy interposer and psec)
+import core  # noqa: E402,F401  (sets up the repository path, the entropy interposer and psec)
 
 assert_active = False
 try:
@@ -12,9 +13,18 @@ except AssertionError:
     assert_active = True
 items = pickle.load(open(sys.argv[1], "rb"))
 out = []
+headroom = int(os.environ.get("VERIF_CHILD_STACK", "0"))
+base_limit = sys.getrecursionlimit()
 for fn, args, stream, entropy in items:
     try:
-        r = core.call_impl(fn, args, stream=stream, replay_entropy=(entropy + bytes(64)) if entropy else None)
+        if headroom:
+            import inspect
+            sys.setrecursionlimit(len(inspect.stack(0)) + headroom)
+        try:
+            r = core.call_impl(fn, args, stream=stream, replay_entropy=(entropy + bytes(64)) if entropy else None)
+        finally:
+            if headroom:
+                sys.setrecursionlimit(base_limit)
         out.append(("ok\t" + core.generic_canon(r.value)) if r.ok else ("err\t" + r.err))
     except Exception as e:  # noqa: BLE001
         out.append(f"<child error {type(e).__name__}: {e}>")
